@@ -9,7 +9,7 @@ from ..paths import Enumerator
 from ..strshape import (segments, merge, Lit, Hole, Join, Unknown,
                         shape_text)
 from ..util import (U, is_const, method_call, kwarg, walk_no_nested,
-                    returns_of)
+                    returns_of, parent_map)
 
 GEN = PKG + '.generator'
 POLICY = PKG + '.policy'
@@ -860,6 +860,132 @@ def check_every(ctx):
            'the sample writer filters the formatted sections')
 
 
+_CONSUMERS = ('list', 'tuple', 'sorted', 'set', 'frozenset', 'any', 'all',
+              'sum', 'max', 'min', 'dict')
+
+
+def check_walked_once(ctx):
+    """What a namespace hands over as its rule defaults may be walked only
+    once (entry points return lists, but also generators and
+    itertools.chain objects): between taking a section's collection out of
+    the policies mapping and rendering it, nothing else may iterate it - a
+    second walk of a one-shot iterable finds nothing, and the sample then
+    states none of that namespace's defaults."""
+    prog = ctx.prog
+    sec = prog.func(GEN + '._sort_and_format_by_section')
+    W = ctx.where(sec.module, sec.node)
+    pol = sec.params[0]
+    pm = parent_map(sec.node)
+    # local names holding one section's collection
+    names = set()
+    for n in walk_no_nested(sec.node):
+        if isinstance(n, ast.Assign) and len(n.targets) == 1 and isinstance(
+                n.targets[0], ast.Name) and isinstance(
+                    n.value, ast.Subscript) and U(n.value.value) == pol:
+            names.add(n.targets[0].id)
+        if isinstance(n, (ast.For, ast.comprehension)) and isinstance(
+                n.iter, ast.Call) and method_call(n.iter) and U(
+                    method_call(n.iter)[0]) == pol and method_call(
+                        n.iter)[1] in ('items', 'values'):
+            tg = n.target
+            if method_call(n.iter)[1] == 'items' and isinstance(
+                    tg, ast.Tuple) and len(tg.elts) == 2 and isinstance(
+                        tg.elts[1], ast.Name):
+                names.add(tg.elts[1].id)
+            elif method_call(n.iter)[1] == 'values' and isinstance(
+                    tg, ast.Name):
+                names.add(tg.id)
+
+    LAZY = ('map', 'filter', 'iter', 'enumerate', 'zip', 'reversed',
+            'itertools.chain', 'chain', 'itertools.chain.from_iterable',
+            'chain.from_iterable', 'itertools.islice', 'islice')
+
+    def subject(x):
+        return (isinstance(x, ast.Name) and x.id in names) or (
+            isinstance(x, ast.Subscript) and U(x.value) == pol)
+
+    def lazy_view(x):
+        """x walks a subject only when it is walked itself: a generator
+        expression over (or of) subjects, map / chain / ... of them"""
+        if subject(x):
+            return True
+        if isinstance(x, ast.GeneratorExp):
+            return any(lazy_view(g.iter) for g in x.generators) or \
+                lazy_view(x.elt)
+        if isinstance(x, ast.Call) and U(x.func) in LAZY:
+            return any(lazy_view(a) for a in x.args)
+        return False
+    changed = True
+    while changed:
+        changed = False
+        for n in walk_no_nested(sec.node):
+            if isinstance(n, ast.Assign) and len(n.targets) == 1 and \
+                    isinstance(n.targets[0], ast.Name) and \
+                    n.targets[0].id not in names and not subject(
+                        n.value) and lazy_view(n.value):
+                names.add(n.targets[0].id)
+                changed = True
+    sites = []
+    for n in walk_no_nested(sec.node):
+        if isinstance(n, ast.For) and lazy_view(n.iter):
+            sites.append(n)
+        elif isinstance(n, (ast.ListComp, ast.SetComp, ast.DictComp)):
+            if any(lazy_view(g.iter) for g in n.generators):
+                sites.append(n)
+        elif isinstance(n, ast.Call) and isinstance(n.func, ast.Name) and \
+                n.func.id in _CONSUMERS and any(lazy_view(a)
+                                                for a in n.args):
+            sites.append(n)
+        elif isinstance(n, ast.Call) and method_call(n, 'join') and \
+                n.args and lazy_view(n.args[0]):
+            sites.append(n)
+        elif isinstance(n, ast.Starred) and lazy_view(n.value):
+            sites.append(n)
+    sites.sort(key=lambda n_: (n_.lineno, n_.col_offset))
+    if not sites:
+        raise AnalysisError('no walk of a section\'s rule defaults found in '
+                            '%s' % sec.qual)
+
+    def chain(n):
+        out = []
+        cur = n
+        while cur is not None:
+            out.append(cur)
+            cur = pm.get(cur)
+        return out
+
+    def exclusive(a, b):
+        """a and b sit in different arms of one if statement"""
+        ca, cb = chain(a), chain(b)
+        for i, x in enumerate(ca):
+            if isinstance(x, ast.If) and x in cb:
+                j = cb.index(x)
+                if i == 0 or j == 0:
+                    return False
+                in_body_a = ca[i - 1] in x.body
+                in_body_b = cb[j - 1] in x.body
+                in_else_a = ca[i - 1] in x.orelse
+                in_else_b = cb[j - 1] in x.orelse
+                if (in_body_a and in_else_b) or (in_else_a and in_body_b):
+                    return True
+                return False
+        return False
+    bad = None
+    for i, a in enumerate(sites):
+        for b in sites[i + 1:]:
+            if not exclusive(a, b):
+                bad = bad or (a, b)
+    ctx.ob('C17.ONCE', bad is None, ctx.where(sec.module, bad[1])
+           if bad else W, sec.qual,
+           '%d walk(s) of a section\'s rule defaults' % len(sites),
+           'each section\'s collection is walked once' if bad is None else
+           'a section\'s rule defaults are walked at line %d and again at '
+           'line %d: for a namespace that hands over a one-shot iterable '
+           '(a generator, itertools.chain) the second walk finds nothing '
+           'and the sample omits all its defaults' % (
+               bad[0].lineno, bad[1].lineno))
+
+
 def check_fresh_output(ctx, rule='C17.FRESH-OUTPUT'):
     """A generated file is the generated text and nothing else: every open
     for writing in the generator module truncates (mode 'w' / 'x', or
@@ -920,4 +1046,5 @@ def check(ctx):
     check_lines(ctx, fmt, sanitizer, ok)
     check_json(ctx)
     check_every(ctx)
+    check_walked_once(ctx)
     check_fresh_output(ctx)
